@@ -2,7 +2,7 @@
 import z3
 
 from .. import symx
-from ..run import Harness
+from ..run import Harness, Prepared
 from ..symx import choice
 from ..tree import Arr, Frame, Raised
 from .common import (BV, FP, T, cell_ident, const_ints, isna, kind_of, mk_col, rid_col, same_key, val_eq, KIND_DTYPE)
@@ -164,6 +164,7 @@ def harnesses(tier):
         for kind in ("left_join", "anti_join", "full_join"):
             hs.append(Join(kind, ["td"], 2, 2))
         hs.append(Join("semi_join", ["us"], 2, 2))
+        hs.append(Prepared(Join("left_join", ["T"], 2, 2))); hs.append(Prepared(Join("full_join", ["f"], 2, 2)))
     else:
         for kind in JOINS:
             for k in ["f", "i", "T", "D", "b", "O", "td", "us"]:
